@@ -559,11 +559,58 @@ fn linearizable(initial: Option<i64>, calls: &[KCall], final_state: Option<Optio
     go(0, initial, calls, final_state, &mut memo)
 }
 
-pub fn check_history(p: &Program, r: &RunResult) -> Vec<String> {
-    let mut out = Vec::new();
-    if r.verdict != Verdict::Done {
-        return out;
+fn oz(v: &Option<i64>) -> String {
+    match v {
+        Some(x) if *x < 0 => format!("(Some ({}))", x),
+        Some(x) => format!("(Some {})", x),
+        None => "None".into(),
     }
+}
+
+fn kop_coq(op: &KOp) -> String {
+    match op {
+        KOp::Get(r) => format!("KGet {}", oz(r)),
+        KOp::Contains(b) => format!("KContains {}", b),
+        KOp::Insert(v, old) => format!("KInsert {} {}", v, oz(old)),
+        KOp::TryInsert(v, cur) => format!("KTryInsert {} {}", v, oz(cur)),
+        KOp::Remove(old) => format!("KRemove {}", oz(old)),
+        KOp::Compute(f, k, seen, ret) => format!("KCompute (remap_tbl {} {}) {} {}", f, k, oz(seen), oz(ret)),
+        KOp::CondRemove(obs) => format!("KCondRemove {}", obs),
+        KOp::ForceRemove | KOp::ClearKey => "KForceRemove".into(),
+    }
+}
+
+/// Coq text: one `Eval vm_compute in (lin_b ...)` per key with at least two calls
+pub fn history_coq(p: &Program, r: &RunResult) -> (String, usize) {
+    let mut s = String::new();
+    let mut n = 0;
+    if r.verdict != Verdict::Done {
+        return (s, 0);
+    }
+    let (per_key, _) = per_key_calls(p, r);
+    let finals: StdHashMap<u32, Option<i64>> = r.final_get.iter().cloned().collect();
+    for (k, calls) in per_key.iter() {
+        if calls.len() < 2 || calls.len() > 14 {
+            continue;
+        }
+        let initial = if p.prefill.contains(k) { Some(1000 + *k as i64) } else { None };
+        let fin = finals.get(k).cloned();
+        s.push_str(&format!(
+            "Eval vm_compute in (lin_b {} [{}] {}).\n",
+            oz(&initial),
+            calls.iter().map(|c| format!("C_ {} {} ({})", c.inv, c.res, kop_coq(&c.op))).collect::<Vec<_>>().join("; "),
+            match fin {
+                Some(f) => format!("(Some {})", oz(&f)),
+                None => "None".into(),
+            }
+        ));
+        n += 1;
+    }
+    (s, n)
+}
+
+fn per_key_calls(p: &Program, r: &RunResult) -> (BTreeMap<u32, Vec<KCall>>, Vec<String>) {
+    let mut out = Vec::new();
     let mut per_key: BTreeMap<u32, Vec<KCall>> = BTreeMap::new();
     let mut push = |k: u32, c: KCall| per_key.entry(k).or_default().push(c);
     for c in &r.calls {
@@ -621,6 +668,15 @@ pub fn check_history(p: &Program, r: &RunResult) -> Vec<String> {
             _ => {}
         }
     }
+    drop(push);
+    (per_key, out)
+}
+
+pub fn check_history(p: &Program, r: &RunResult) -> Vec<String> {
+    if r.verdict != Verdict::Done {
+        return Vec::new();
+    }
+    let (mut per_key, mut out) = per_key_calls(p, r);
     let finals: StdHashMap<u32, Option<i64>> = r.final_get.iter().cloned().collect();
     for k in 0..p.universe {
         let initial = if p.prefill.contains(&k) { Some(1000 + k as i64) } else { None };
@@ -882,7 +938,31 @@ pub fn gen_program(rng: &mut SplitMix64, kind: u64) -> Program {
             _ => COp::Get(k),
         }
     };
-    match kind % 8 {
+    match kind % 10 {
+        // concurrent increments of one counter (C08)
+        8 => {
+            p.universe = 2;
+            p.prefill = vec![0, 1];
+            p.hasher = if rng.chance(1, 2) { H_ZERO } else { H_IDENTITY };
+            for _ in 0..nthreads {
+                let n = 1 + rng.below(3);
+                p.threads.push((0..n).map(|_| if rng.chance(4, 5) { COp::Compute(0, 1) } else { COp::Compute(1, 1) }).collect());
+            }
+        }
+        // a bin at the treeify threshold while others drain it (the race behind finding F5)
+        9 => {
+            p.cap = 64 + rng.below(64);
+            p.hasher = H_ZERO;
+            p.universe = 11;
+            p.prefill = (0..8).collect();
+            p.threads.push(vec![COp::Insert(8, { val += 1; val }), COp::Iter]);
+            let mut rm: Vec<COp> = (0..8).map(COp::Remove).collect();
+            rm.push(COp::Remove(8));
+            p.threads.push(rm);
+            if nthreads > 2 {
+                p.threads.push(vec![COp::Iter, COp::Get(8)]);
+            }
+        }
         // random per-key programs on a small table
         0 | 1 => {
             p.universe = 3 + rng.below(4) as u32;
@@ -894,7 +974,7 @@ pub fn gen_program(rng: &mut SplitMix64, kind: u64) -> Program {
         }
         // operations racing with a resize: fill to one below the threshold
         2 | 3 => {
-            let n: u32 = if kind % 8 == 2 { 16 } else { 64 };
+            let n: u32 = if kind % 10 == 2 { 16 } else { 64 };
             p.cap = (n / 2) as u64; // with_capacity(n/2) -> table of n bins for n = 16, 64
             p.hasher = if rng.chance(1, 2) { H_IDENTITY } else { H_MIX };
             let fill = n - n / 4 - 1;
